@@ -2,7 +2,7 @@
    and finite facts about the regenerated child templates and reference-cell coordinates. *)
 From Coq Require Import List Arith Bool ZArith Lia.
 Import ListNotations.
-Require Import Model.C18_Surgery Proofs.C18_SurgeryProofs Gen.C18Gen.
+Require Import Model.C18_Surgery Proofs.C18_SurgeryProofs Proofs.C18_TilingProofs Gen.C18Gen.
 
 Lemma gen_reix_uniq_is_model : forall ix, gen_reix_uniq ix = reix_uniq ix.
 Proof. reflexivity. Qed.
@@ -94,9 +94,8 @@ Lemma wedge_split_wellformed :
   length gen_wedge_split = 3 /\ length gen_refwedge_p = 6.
 Proof. vm_compute. repeat split. Qed.
 
-(* conformity certificate of both splits on the regenerated templates and reference coordinates (finite):
-   inner faces are shared by exactly two children, outer faces lie in a boundary plane of the reference cell *)
-Lemma tet_splits_conforming :
-  conforming_split gen_refhex_p cube_planes gen_hex_split = true /\
-  conforming_split gen_refwedge_p prism_planes gen_wedge_split = true.
-Proof. vm_compute. split; reflexivity. Qed.
+(* the regenerated templates and reference coordinates ARE the literals of Proofs.C18_TilingProofs *)
+Lemma tet_split_literals :
+  gen_hex_split = hex_split_lit /\ gen_refhex_p = refhex_lit /\ gen_wedge_split = wedge_split_lit /\ gen_refwedge_p = refwedge_lit /\
+  gen_quad_split = [[0; 1; 3]; [1; 2; 3]].
+Proof. repeat split; reflexivity. Qed.
